@@ -29,6 +29,28 @@ CHECKS = {
     note='Trusts the tables of the reference tree as "published" (digest pins in checks/c11_pins.json; re-pin on an intentional table update). '
          'Sportshall increments in unparseable units only get a lower-bound oracle.',
     ref='DESIGN.md §4 C11'),
+ 'C02': dict(
+    technique='model-based testing of call histories: bounded-exhaustive BFS over all call sequences + Hypothesis rule-based state machine and card-driven plays, against an independent three-valued reference model',
+    text='Every call of the alphabet (legal or not) is applied at every distinct state reachable within the depth bound (n=1..4 athletes) and '
+         'along long generated plays with injected illegal calls; the implementation must accept exactly what the model of the rules accepts, '
+         'refuse with RuleViolation leaving the full observable snapshot unchanged, record the cards and move the stage as the model does, never backwards.',
+    note='Trusts the reference model (vlib/hjmodel.py, written from the property text). Unspecified regions (pass in a jump-off, jump-off bar moved early, '
+         'nobody clears anything) truncate a history and are counted. Depth-bounded; longer histories only by generated plays.',
+    ref='DESIGN.md §4 C02'),
+ 'C03': dict(
+    technique='generated complete competitions (BFS terminal states, card-driven plays, exhaustive card spaces in thorough) judged by a validity predicate computed from the result cards alone',
+    text='Decided competitions are produced by the BFS, by implementation-driven plays from drawn cards with rule-conforming jump-off continuations '
+         '(raised / repeated / lowered bar), and in the thorough tier by enumerating the 2x3 and 3x2 card spaces with all 2-height jump-off '
+         'continuations; placings, bests and stage are judged by a predicate over the cards (countback, standard ranking, ties, jump-off outcome).',
+    note='The predicate is independent of the implementation\'s ranking code and of the C02 model. Competitions without any regular clearance are outside the property.',
+    ref='DESIGN.md §4 C03'),
+ 'C08': dict(
+    technique='round-trip and metamorphic testing over generated competition prefixes (log replay, card export/import, per-height interleavings)',
+    text='For prefixes sampled from the BFS and from generated plays: from_actions must rebuild an indistinguishable competition, to_matrix -> from_matrix '
+         'must reproduce state and standings modulo pass marks, and every interleaving of a height\'s trials that keeps each athlete\'s order '
+         '(all when <= 120, else 30 drawn) must be accepted call by call and end in the same cards, state and places; the trial list must spell the cards.',
+    note='Interleavings vary one height at a time. Prefixes stay inside specified territory.',
+    ref='DESIGN.md §4 C08'),
  'C04': dict(
     technique='bounded-exhaustive enumeration over a class-representative alphabet + grammar-directed generation from the regex syntax trees; membership oracle',
     text='All strings up to length 4 (quick) / 5 (thorough) over one representative per cell of the code-point partition induced by the '
